@@ -4,6 +4,7 @@ From Coq Require Import Sorting.Sorted Sorting.Permutation.
 From GoCar Require Import Bytes Varint Cid Header Frame V2Header Scan Index Store Wf.
 From GoCarProofs Require Import BytesFacts VarintFacts CidFacts HeaderFacts ScanFacts
      FinalBytes FinalOrder FinalIndex FinalStore FinalWf.
+From GoCarProofs Require IndexRoundtrip.
 
 (* ---- parts of a CARv2 layout -------------------------------------------------------------------- *)
 Section Parts.
@@ -266,7 +267,7 @@ Section Accept.
       assert (HP63 : blen P < two63) by lia.
       assert (HI63 : blen (idx_write fi) < two63) by lia.
       destruct (final_index_good wo ro bs fi Hso Hwo HP63 Hfi HI63 Hcodes) as [Hgood _].
-      rewrite <- (app_nil_r (idx_write fi)). rewrite (idx_read_write fi [] Hgood).
+      rewrite <- (app_nil_r (idx_write fi)). rewrite (IndexRoundtrip.idx_read_write fi [] Hgood).
       assert (Hfinds : forallb (idx_finds fi) bs = true).
       { apply forallb_forall. intros b Hb.
         pose proof (stored_ok_put wo bs Hso) as Hput.
